@@ -154,7 +154,7 @@ theorem leave_tasks {r : Realm} {k : SessKey} {s : Session} (mode : LeaveMode)
     (hf : r.clients.find? (fun c => c.key == k) = some s) :
     (r.leave k mode).tasks =
       (leaveRemove ((leaveSend r k mode).takeTestaments k).2 k mode.isShutdown).tasks ++
-        (if mode.isShutdown || mode.killAll then []
+        (if mode.isShutdown then []
          else testamentTasks ((r.testaments.find? (fun t => t.1 == k)).map (·.2)) ++ [.metaPub (onLeavePub s)]) := by
   rw [leave_some mode hf]
   show (leaveAnnounce _ _ _ _).tasks = _
@@ -172,7 +172,7 @@ theorem leave_tasks' {r : Realm} {k : SessKey} {s : Session} (mode : LeaveMode)
     (hf : r.clients.find? (fun c => c.key == k) = some s) :
     (r.leave k mode).tasks =
       leaveBaseTasks r k mode ++
-        (if mode.isShutdown || mode.killAll then []
+        (if mode.isShutdown then []
          else testamentTasks (bucketOf r k) ++ [.metaPub (onLeavePub s)]) := leave_tasks mode hf
 
 /-- a realm with empty tables satisfies the invariant -/
